@@ -96,13 +96,55 @@ theorem bindOuts_spec (c : List VId) : ∀ (outs : List PyName) (l : List (List 
 
 /-- The simulation relation. -/
 def Rel (st : St) (sp : Sp) : Prop :=
-  sp.env = flagEnv st.castable st.locals ∧ sp.obs = st.obs ∧ Fresh st.locals st.castable st.next
+  sp.env = flagEnv st.castable st.locals ∧ sp.obs = st.obs ∧ Fresh st.locals st.castable st.next ∧ sp.err = st.err
+
+theorem lookup_flag_isNone (c : List VId) (n : PyName) (l : List (List (PyName × VId))) :
+    (lookupS n (flagEnv c l)).isNone = (lookup n l).isNone := by
+  rw [lookup_flag]; cases lookup n l <;> rfl
+
+theorem any_unbound_flag (c : List VId) (l : List (List (PyName × VId))) (names : List PyName) :
+    names.any (fun n => (lookupS n (flagEnv c l)).isNone) = names.any (fun n => (lookup n l).isNone) := by
+  simp only [lookup_flag_isNone]
+
+theorem flagEnv_tail (c : List VId) (l : List (List (PyName × VId))) : (flagEnv c l).tail = flagEnv c l.tail := by
+  simp [flagEnv, List.map_tail]
+
+theorem fresh_push (l : List (List (PyName × VId))) (c : List VId) (next : VId) (h : Fresh l c next) :
+    Fresh ([] :: l) c next := by
+  refine ⟨?_, h.2⟩
+  intro s hs p hp
+  rcases List.mem_cons.mp hs with rfl | hs
+  · cases hp
+  · exact h.1 s hs p hp
 
 theorem rel_step (st : St) (sp : Sp) (h : Rel st sp) (i : Instr) : Rel (step st i) (stepS sp i) := by
-  obtain ⟨he, ho, hf⟩ := h
+  obtain ⟨he, ho, hf, herr⟩ := h
   cases i with
+  | enterLoop lv state =>
+    obtain ⟨h1, h2⟩ := bindOuts_spec st.castable (lv.toList ++ state) ([] :: st.locals) st.next (fresh_push _ _ _ hf)
+    refine ⟨?_, ho, h2, ?_⟩
+    · simp only [step, stepS]
+      rw [h1, he]; rfl
+    · simp only [step, stepS, herr]
+  | exitLoop state =>
+    have ht := fresh_tail _ _ _ hf
+    obtain ⟨h1, h2⟩ := bindOuts_spec st.castable state st.locals.tail st.next ht
+    refine ⟨?_, ho, h2, ?_⟩
+    · simp only [step, stepS]
+      rw [h1, he, flagEnv_tail]
+    · simp only [step, stepS, herr, he, flagEnv_tail, any_unbound_flag]
+  | exitBranch outs =>
+    refine ⟨?_, ho, fresh_tail _ _ _ hf, ?_⟩
+    · simp only [step, stepS, he, flagEnv_tail]
+    · simp only [step, stepS, herr, he, any_unbound_flag]
+  | endIf outs =>
+    obtain ⟨h1, h2⟩ := bindOuts_spec st.castable outs st.locals st.next hf
+    refine ⟨?_, ho, h2, ?_⟩
+    · simp only [step, stepS]
+      rw [h1, he]
+    · simp only [step, stepS, herr]
   | bindLit n =>
-    refine ⟨?_, ho, ?_⟩
+    refine ⟨?_, ho, ?_, herr⟩
     · simp only [step, stepS]
       rw [bind_flag, he]
       have h1 : flagEnv (st.next :: st.castable) st.locals = flagEnv st.castable st.locals :=
@@ -116,15 +158,15 @@ theorem rel_step (st : St) (sp : Sp) (h : Rel st sp) (i : Instr) : Rel (step st 
       · exact Nat.lt_succ_self _
       · exact Nat.lt_succ_of_lt (hf.2 v hv)
   | bindTensor n =>
-    refine ⟨?_, ho, fresh_bind st.locals st.castable st.next n hf⟩
+    refine ⟨?_, ho, fresh_bind st.locals st.castable st.next n hf, herr⟩
     simp only [step, stepS]
     rw [bind_flag, he, not_contains_of_fresh _ _ hf.2]
   | use n =>
-    refine ⟨he, ?_, hf⟩
+    refine ⟨he, ?_, hf, herr⟩
     simp only [step, stepS]
     rw [ho, he, lookup_flag]
   | enter =>
-    refine ⟨?_, ho, ?_⟩
+    refine ⟨?_, ho, ?_, herr⟩
     · simp only [step, stepS, he]; rfl
     · refine ⟨?_, hf.2⟩
       intro s hs p hp
@@ -135,13 +177,13 @@ theorem rel_step (st : St) (sp : Sp) (h : Rel st sp) (i : Instr) : Rel (step st 
   | exit outs =>
     have ht := fresh_tail _ _ _ hf
     obtain ⟨h1, h2⟩ := bindOuts_spec st.castable outs st.locals.tail st.next ht
-    refine ⟨?_, ho, h2⟩
+    refine ⟨?_, ho, h2, herr⟩
     simp only [step, stepS]
     rw [h1, he]
     simp [flagEnv, List.map_tail]
 
 theorem rel_init : Rel St.init Sp.init := by
-  refine ⟨rfl, rfl, ?_, ?_⟩
+  refine ⟨rfl, rfl, ⟨?_, ?_⟩, rfl⟩
   · intro s hs p hp
     simp only [St.init, List.mem_singleton] at hs
     subst hs
@@ -166,6 +208,10 @@ def safe (a : PyName) : Nat → List Instr → Bool
   | d, .use _ :: r => safe a d r
   | d, .enter :: r => safe a (d + 1) r
   | d, .exit outs :: r => decide (0 < d) && !(outs.contains a) && safe a (d - 1) r
+  | d, .enterLoop lv state :: r => !((lv.toList ++ state).contains a) && safe a (d + 1) r
+  | d, .exitLoop state :: r => decide (0 < d) && !(state.contains a) && safe a (d - 1) r
+  | d, .exitBranch _ :: r => decide (0 < d) && safe a (d - 1) r
+  | d, .endIf outs :: r => !(outs.contains a) && safe a d r
 
 /-- `env` is `d` scopes that do not bind `a`, on top of an environment in which `a` is a literal. -/
 def Vis (a : PyName) (d : Nat) (env : List (List (PyName × Bool))) : Prop :=
@@ -248,5 +294,145 @@ theorem vis_run (a : PyName) : ∀ (is : List Instr) (d : Nat) (sp : Sp), safe a
         have ht : Vis a (d - 1) sp.env.tail :=
           ⟨xs, E, by simp [he], by simp at hd; omega, fun s hs' => hX s (List.mem_cons_of_mem _ hs'), hE⟩
         exact vis_run a rest (d - 1) _ hr (vis_outs a outs (d - 1) _ hc ht)
+    | enterLoop lv state =>
+      simp only [safe, Bool.and_eq_true, Bool.not_eq_true'] at hs
+      obtain ⟨X, E, he, hd, hX, hE⟩ := h
+      have hp : Vis a (d + 1) ([] :: sp.env) := by
+        refine ⟨[] :: X, E, by simp [he], by simp [hd], ?_, hE⟩
+        intro s hs'
+        rcases List.mem_cons.mp hs' with rfl | hs'
+        · rfl
+        · exact hX s hs'
+      exact vis_run a rest (d + 1) _ hs.2 (vis_outs a _ (d + 1) _ hs.1 hp)
+    | exitLoop state =>
+      simp only [safe, Bool.and_eq_true, decide_eq_true_eq, Bool.not_eq_true'] at hs
+      obtain ⟨⟨hd0, hc⟩, hr⟩ := hs
+      obtain ⟨X, E, he, hd, hX, hE⟩ := h
+      cases X with
+      | nil => simp at hd; omega
+      | cons x xs =>
+        have ht : Vis a (d - 1) sp.env.tail :=
+          ⟨xs, E, by simp [he], by simp at hd; omega, fun s hs' => hX s (List.mem_cons_of_mem _ hs'), hE⟩
+        exact vis_run a rest (d - 1) _ hr (vis_outs a state (d - 1) _ hc ht)
+    | exitBranch outs =>
+      simp only [safe, Bool.and_eq_true, decide_eq_true_eq] at hs
+      obtain ⟨hd0, hr⟩ := hs
+      obtain ⟨X, E, he, hd, hX, hE⟩ := h
+      cases X with
+      | nil => simp at hd; omega
+      | cons x xs =>
+        have ht : Vis a (d - 1) sp.env.tail :=
+          ⟨xs, E, by simp [he], by simp at hd; omega, fun s hs' => hX s (List.mem_cons_of_mem _ hs'), hE⟩
+        exact vis_run a rest (d - 1) _ hr ht
+    | endIf outs =>
+      simp only [safe, Bool.and_eq_true, Bool.not_eq_true'] at hs
+      exact vis_run a rest d _ hs.2 (vis_outs a outs d _ hs.1 h)
+
+/-! ### outputs of If/Loop nodes and loop-carried names are ordinary tensors (round 5) -/
+
+theorem lookupS_bindS (n m : PyName) (b : Bool) (env : List (List (PyName × Bool))) :
+    lookupS n (bindS m b env) = if (m == n) = true then some b else lookupS n env := by
+  cases env with
+  | nil => by_cases h : (m == n) = true <;> simp [bindS, lookupS, lookupScopeS, h]
+  | cons s rest => by_cases h : (m == n) = true <;> simp [bindS, lookupS, lookupScopeS, h]
+
+theorem lookupS_bindAll_false (n : PyName) : ∀ (names : List PyName) (env : List (List (PyName × Bool))),
+    (lookupS n env = some false ∨ n ∈ names) →
+    lookupS n (names.foldl (fun e m => bindS m false e) env) = some false
+  | [], env, h => by
+    rcases h with h | h
+    · exact h
+    · cases h
+  | m :: rest, env, h => by
+    simp only [List.foldl_cons]
+    apply lookupS_bindAll_false n rest
+    rw [lookupS_bindS]
+    by_cases hm : (m == n) = true
+    · left; simp [hm]
+    · simp only [hm]
+      rcases h with h | h
+      · left; exact h
+      · rcases List.mem_cons.mp h with rfl | h
+        · simp at hm
+        · right; exact h
+
+/-! ### the scope stack of a well-bracketed program (round 5) -/
+
+/-- Scope depth after a program started at depth `d` (number of blocks entered and not yet left); `none` when the
+program leaves a block it never entered. -/
+def depthAfter : Nat → List Instr → Option Nat
+  | d, [] => some d
+  | d, .bindLit _ :: r => depthAfter d r
+  | d, .bindTensor _ :: r => depthAfter d r
+  | d, .use _ :: r => depthAfter d r
+  | d, .endIf _ :: r => depthAfter d r
+  | d, .enter :: r => depthAfter (d + 1) r
+  | d, .enterLoop _ _ :: r => depthAfter (d + 1) r
+  | d, .exit _ :: r => if 0 < d then depthAfter (d - 1) r else none
+  | d, .exitLoop _ :: r => if 0 < d then depthAfter (d - 1) r else none
+  | d, .exitBranch _ :: r => if 0 < d then depthAfter (d - 1) r else none
+
+theorem bind_length (n : PyName) (v : VId) (l : List (List (PyName × VId))) (h : 0 < l.length) :
+    (bind n v l).length = l.length := by
+  cases l with
+  | nil => simp at h
+  | cons s rest => rfl
+
+theorem bindOuts_length : ∀ (outs : List PyName) (l : List (List (PyName × VId))) (next : VId), 0 < l.length →
+    (bindOuts outs l next).1.length = l.length
+  | [], _, _, _ => rfl
+  | n :: rest, l, next, h => by
+    have hb := bind_length n next l h
+    have := bindOuts_length rest (bind n next l) (next + 1) (by omega)
+    simp only [bindOuts, List.foldl] at this ⊢
+    rw [this, hb]
+
+theorem step_depth (st : St) (i : Instr) (d d' : Nat) (rest : List Instr) (hl : st.locals.length = d + 1)
+    (h : depthAfter d (i :: rest) = some d') :
+    ∃ d1, (step st i).locals.length = d1 + 1 ∧ depthAfter d1 rest = some d' := by
+  cases i with
+  | bindLit n => exact ⟨d, by simp only [step]; rw [bind_length _ _ _ (by omega), hl], h⟩
+  | bindTensor n => exact ⟨d, by simp only [step]; rw [bind_length _ _ _ (by omega), hl], h⟩
+  | use n => exact ⟨d, hl, h⟩
+  | enter => exact ⟨d + 1, by simp [step, hl], h⟩
+  | endIf outs => exact ⟨d, by simp only [step]; rw [bindOuts_length _ _ _ (by omega), hl], h⟩
+  | enterLoop lv state =>
+    refine ⟨d + 1, ?_, h⟩
+    simp only [step]
+    rw [bindOuts_length _ _ _ (by simp)]
+    simp [hl]
+  | exit outs =>
+    simp only [depthAfter] at h
+    split at h
+    · refine ⟨d - 1, ?_, h⟩
+      simp only [step]
+      rw [bindOuts_length _ _ _ (by simp; omega)]
+      simp; omega
+    · cases h
+  | exitLoop outs =>
+    simp only [depthAfter] at h
+    split at h
+    · refine ⟨d - 1, ?_, h⟩
+      simp only [step]
+      rw [bindOuts_length _ _ _ (by simp; omega)]
+      simp; omega
+    · cases h
+  | exitBranch outs =>
+    simp only [depthAfter] at h
+    split at h
+    · refine ⟨d - 1, ?_, h⟩
+      simp only [step]
+      simp; omega
+    · cases h
+
+theorem foldl_depth : ∀ (prog : List Instr) (st : St) (d d' : Nat), st.locals.length = d + 1 →
+    depthAfter d prog = some d' → (prog.foldl step st).locals.length = d' + 1
+  | [], st, d, d', hl, h => by
+    simp only [depthAfter, Option.some.injEq] at h
+    subst h
+    exact hl
+  | i :: rest, st, d, d', hl, h => by
+    obtain ⟨d1, h1, h2⟩ := step_depth st i d d' rest hl h
+    exact foldl_depth rest (step st i) d1 d' h1 h2
 
 end OV.Scope
